@@ -14,6 +14,10 @@ Replay of C18 traces.  Line protocol (harness/tty/c18_test.go):
     W <hex>           | <vt> ; <text> <outside>
     P <x> <y>         | <vt> ; <text> <outside>
     S <0|1>           | <vt> ; <text> <outside>
+    L <tab> <sb> <hex> | <vt> ; <text> <outside>     hal.linkTTYToConsole as the kernel links the pair
+                                                      (cases `hal-…`, harness/hal/c18hal_test.go): the
+                                                      shipped VT is attached, receives the early kfmt
+                                                      output <hex> and is activated — one observation
 
 `<vt>` = `panic` or `<cx> <cy> <vy> <active> <datahash>`; `<text>` = hash of the canonical text area
 of the screen read back from the console (mock: the cells; text mode: the words; framebuffer: the
@@ -110,6 +114,9 @@ def processLine (st : St) (line : String) : IO St := do
       | some t, ["W", hex] => write { t with out := [] } (hexBytes hex)
       | some t, ["P", x, y] => .ok (setCursorPosition { t with out := [] } (nat! x) (nat! y))
       | some t, ["S", a] => setState { t with out := [] } (a = "1")
+      | _, ["L", tab, sb, hex] =>
+        (attachTo (newVT (nat! tab) (nat! sb)) st.w st.h st.fg st.bg).bind fun t =>
+          (write t (hexBytes hex)).bind fun t => setState t true
       | _, _ => .panic
     match op with
     | ["A", tab, sb] =>
@@ -119,6 +126,10 @@ def processLine (st : St) (line : String) : IO St := do
       if let some r := st.ref then
         st := { st with ref := some (r.run ((hexBytes hex).map Op.byte)), stats := st.stats.bump "bytes" (hexBytes hex).length }
     | ["P", x, y] => if let some r := st.ref then st := { st with ref := some (r.setCursor (nat! x) (nat! y)) }
+    | ["L", tab, sb, hex] =>
+      st := { st with cons := Console.new st.w st.h ⟨0xee, 0xee, 0xee⟩,
+                      ref := some ((Term.new st.w st.h (nat! sb) (nat! tab) st.fg st.bg).run ((hexBytes hex).map Op.byte)),
+                      stats := st.stats.bump "hal_links" |>.bump "bytes" (hexBytes hex).length }
     | _ => pure ()
     let mut mvt := "panic"
     if let .ok t := res then
@@ -147,21 +158,22 @@ def processLine (st : St) (line : String) : IO St := do
       if act = "1" then
         st := { st with stats := st.stats.bump "active_ops" }
         if scr.getD 0 "" ≠ toString (render st.kind r.viewport).toNat then
-          fails := fails ++ [if op = ["S", "1"] then "activate-redraws" else "active-sync"]
+          fails := fails ++ [if op = ["S", "1"] ∨ op.head? = some "L" then "activate-redraws" else "active-sync"]
       else
         st := { st with stats := st.stats.bump "inactive_ops" }
         if scr ≠ st.prevScr then fails := fails ++ ["inactive-untouched"]
     | _, _ => pure ()
     for cl in fails do
-      IO.println s!"PROPFAIL case={st.caseId} clause={cl} feature={match st.kind with | .mock => "mock" | .text => "text" | .vesa .. => "vesa"} op={short opS} impl={short obsS}"
+      IO.println s!"PROPFAIL case={st.caseId} clause={cl} feature={if st.caseId.startsWith "hal" then "hal-linked-" else ""}{match st.kind with | .mock => "mock" | .text => "text" | .vesa .. => "vesa"} op={short opS} impl={short obsS}"
       st := { st with stats := st.stats.bump "propfail" }
     st := { st with prevScr := scr }
     return st
   | _ =>
     match toks line with
     | ["case", id] => return { st with caseId := id, vt := none, ref := none, stats := st.stats.bump "cases" }
-    | ["font", _, gw, gh, bpr, hex] =>
-      return { st with fonts := st.fonts.push { gw := nat! gw, gh := nat! gh, bpr := nat! bpr, data := (hexBytes hex).toArray } }
+    | ["font", id, gw, gh, bpr, hex] =>
+      let f : Font := { gw := nat! gw, gh := nat! gh, bpr := nat! bpr, data := (hexBytes hex).toArray }
+      return { st with fonts := if nat! id < st.fonts.size then st.fonts.set! (nat! id) f else st.fonts.push f }
     | [] => return st
     | _ => IO.println s!"MISMATCH case={st.caseId} unparsable line: {short line}"; return st
 
